@@ -191,6 +191,7 @@ func genSim(r *term.Rng, idx int) term.T {
 	}
 	return term.C("mkCfg", term.L(units...), term.L(scripts...), term.L(next...), term.L(ults...),
 		lids(r.Range(0, 1)), lids(r.Range(0, 4)), lids(r.Range(0, 4)), lids(r.Range(0, 4)), lids(r.Range(0, 3)),
+		lids(r.Range(0, 3)), lids(r.Range(0, 3)),
 		term.I(int64(r.Range(0, 4))), term.I(int64(r.Range(0, 12))))
 }
 
